@@ -792,3 +792,240 @@ Proof.
   destruct (get_pr r1 (r_id r1)); [|discriminate].
   destruct (next_idx p =? 0); [discriminate|]. inversion H.
 Qed.
+
+(* ------------------------------------------------------------------ *)
+(* 5. a node that is not promotable never starts an election on its own *)
+
+Theorem not_promotable_tick_election r :
+  r_promotable r = false ->
+  tick_election r = Ok (r <| r_election_elapsed := r_election_elapsed r + 1 |>, false).
+Proof.
+  intros Hp. unfold tick_election. cbn [r_promotable]. 
+  change (r_promotable (r <| r_election_elapsed := r_election_elapsed r + 1 |>)) with (r_promotable r).
+  rewrite Hp. cbn [negb]. rewrite orb_true_r. reflexivity.
+Qed.
+
+Theorem not_promotable_tick r :
+  r_promotable r = false -> r_state r <> Leader ->
+  tick r = Ok (r <| r_election_elapsed := r_election_elapsed r + 1 |>, false).
+Proof.
+  intros Hp Hs. unfold tick. destruct (r_state r); try congruence;
+    apply not_promotable_tick_election; exact Hp.
+Qed.
+
+Theorem not_promotable_timeout_now_follower r m :
+  r_promotable r = false -> m_type m = MsgTimeoutNow -> step_follower r m = Ok (r, E_OK).
+Proof.
+  intros Hp Ht. unfold step_follower. rewrite Ht, Hp. reflexivity.
+Qed.
+
+(* the same through Raft::step, in every role and for every message term: the only
+   possible effect is the generic step-down to a higher term *)
+Theorem not_promotable_timeout_now_step r m r' c :
+  r_promotable r = false -> m_type m = MsgTimeoutNow ->
+  step r m = Ok (r', c) ->
+  c = E_OK /\
+  (r' = r \/ (r_term r < m_term m /\ become_follower r (m_term m) INVALID_ID = Ok r')).
+Proof.
+  intros Hp Ht H. unfold step in H. rewrite Ht in H.
+  change (MsgTimeoutNow =? MsgRequestVote) with false in H.
+  change (MsgTimeoutNow =? MsgRequestPreVote) with false in H.
+  change (MsgTimeoutNow =? MsgRequestPreVoteResponse) with false in H.
+  change (MsgTimeoutNow =? MsgAppend) with false in H.
+  change (MsgTimeoutNow =? MsgHeartbeat) with false in H.
+  change (MsgTimeoutNow =? MsgSnapshot) with false in H.
+  change (MsgTimeoutNow =? MsgHup) with false in H.
+  cbn [orb andb negb] in H. rewrite !andb_false_r in H.
+  (* what the dispatch does with a TimeoutNow on a non-promotable node *)
+  assert (Hd : forall r1, r_promotable r1 = false ->
+            match r_state r1 with
+            | PreCandidate | Candidate => step_candidate r1 m
+            | Follower => step_follower r1 m
+            | Leader => step_leader r1 m
+            end = Ok (r1, E_OK)).
+  { intros r1 Hp1. destruct (r_state r1).
+    - apply not_promotable_timeout_now_follower; assumption.
+    - unfold step_candidate. rewrite Ht. reflexivity.
+    - unfold step_leader. rewrite Ht. reflexivity.
+    - unfold step_candidate. rewrite Ht. reflexivity. }
+  destruct (m_term m =? 0).
+  { cbn [bind] in H. rewrite (Hd r Hp) in H. inversion H; subst. auto. }
+  destruct (r_term r <? m_term m) eqn:Elt.
+  { inv_bind H. inv_bind Hx. inversion Hx; subst.
+    pose proof (become_follower_fields _ _ _ _ Hx0) as (_ & _ & _ & _ & _ & Hp1 & _).
+    rewrite Hp in Hp1. rewrite (Hd x0 Hp1) in H. inversion H; subst.
+    split; [reflexivity|]. right. split; [lia|exact Hx0]. }
+  destruct (m_term m <? r_term r).
+  { cbn [bind] in H. inversion H; subst. auto. }
+  cbn [bind] in H. rewrite (Hd r Hp) in H. inversion H; subst. auto.
+Qed.
+
+(* ------------------------------------------------------------------ *)
+(* 3. hup: no campaign while a committed membership change is unapplied *)
+
+(* the window hup scans: from the pending snapshot (if any) or applied + 1, to committed *)
+Definition hup_low (r : raft) : N :=
+  match u_maybe_first_index (unst (r_log r)) with
+  | Some i => i
+  | None => applied (r_log r) + 1
+  end.
+
+Definition hup_campaign (r : raft) (transfer : bool) : Res raft :=
+  if transfer then campaign_real true r
+  else if r_pre_vote r then campaign_pre r
+  else campaign_real false r.
+
+Theorem hup_spec r tl r' :
+  hup r tl = Ok r' ->
+  (is_leader r = true /\ r' = r) \/
+  (is_leader r = false /\
+   has_unapplied_conf_changes r (hup_low r) (committed (r_log r) + 1) = Ok true /\ r' = r) \/
+  (is_leader r = false /\
+   has_unapplied_conf_changes r (hup_low r) (committed (r_log r) + 1) = Ok false /\
+   hup_campaign r tl = Ok r').
+Proof.
+  unfold hup. fold (hup_low r). intros H.
+  destruct (is_leader r). { inversion H; auto. }
+  inv_bind H. destruct x.
+  - inversion H; subst. right; left. auto.
+  - right; right. auto.
+Qed.
+
+Theorem hup_blocked r tl :
+  has_unapplied_conf_changes r (hup_low r) (committed (r_log r) + 1) = Ok true ->
+  hup r tl = Ok r.
+Proof.
+  intros Hb. unfold hup. fold (hup_low r). destruct (is_leader r); [reflexivity|].
+  rewrite Hb. reflexivity.
+Qed.
+
+(* any change made by hup (in particular becoming candidate, pre-candidate or leader, or
+   raising the term) implies the scan found no unapplied membership change *)
+Theorem hup_guard r tl r' :
+  hup r tl = Ok r' -> r' <> r ->
+  is_leader r = false /\
+  has_unapplied_conf_changes r (hup_low r) (committed (r_log r) + 1) = Ok false /\
+  hup_campaign r tl = Ok r'.
+Proof.
+  intros H Hne. apply hup_spec in H. destruct H as [[_ E]|[(_ & _ & E)|H]]; try contradiction.
+  exact H.
+Qed.
+
+(* what scan_conf reads: consecutive non-empty pages from lo up to lo' *)
+Inductive scan_chain (l : raft_log) (hi page : N) : N -> list (list entry) -> N -> Prop :=
+| sc_nil lo : scan_chain l hi page lo [] lo
+| sc_cons lo ents rest lo' :
+    lo < hi -> slice l lo hi (Some page) = Ok (SOk ents) -> ents <> [] ->
+    existsb is_conf_entry ents = false ->
+    scan_chain l hi page (lo + N.of_nat (length ents)) rest lo' ->
+    scan_chain l hi page lo (ents :: rest) lo'.
+
+(* Ok false: the pages read cover [lo, hi) and none holds a membership-change entry *)
+Theorem scan_conf_false l fuel : forall lo hi page,
+  scan_conf l fuel lo hi page = Ok false ->
+  exists pages lo', scan_chain l hi page lo pages lo' /\ hi <= lo'.
+Proof.
+  induction fuel as [|f IH]; intros lo hi page H; [discriminate|].
+  cbn [scan_conf] in H. destruct (lo <? hi) eqn:Elt.
+  2:{ exists [], lo. split; [constructor|lia]. }
+  inv_bind H. destruct x as [ents|e]; [|discriminate].
+  destruct ents as [|e0 ents]; [discriminate|].
+  destruct (existsb is_conf_entry (e0 :: ents)) eqn:Ex; [discriminate|].
+  apply IH in H. destruct H as (pages & lo' & Hc & Hle).
+  exists ((e0 :: ents) :: pages), lo'. split; [|exact Hle].
+  econstructor; try eassumption; [lia|discriminate].
+Qed.
+
+(* Ok true: after some conf-free pages, a page holding a membership-change entry was read *)
+Theorem scan_conf_true l fuel : forall lo hi page,
+  scan_conf l fuel lo hi page = Ok true ->
+  exists pages lo' ents, scan_chain l hi page lo pages lo' /\ lo' < hi /\
+    slice l lo' hi (Some page) = Ok (SOk ents) /\ existsb is_conf_entry ents = true.
+Proof.
+  induction fuel as [|f IH]; intros lo hi page H; [discriminate|].
+  cbn [scan_conf] in H. destruct (lo <? hi) eqn:Elt; [|discriminate].
+  inv_bind H. destruct x as [ents|e]; [|discriminate].
+  destruct ents as [|e0 ents]; [discriminate|].
+  destruct (existsb is_conf_entry (e0 :: ents)) eqn:Ex.
+  - exists [], lo, (e0 :: ents). split; [constructor|]. split; [lia|]. split; assumption.
+  - apply IH in H. destruct H as (pages & lo' & ents' & Hc & Hlt & Hs & He).
+    exists ((e0 :: ents) :: pages), lo', ents'. split; [|auto].
+    econstructor; try eassumption; [lia|discriminate].
+Qed.
+
+(* has_unapplied_conf_changes: nothing unapplied, or the scan *)
+Theorem has_unapplied_spec r lo hi b :
+  has_unapplied_conf_changes r lo hi = Ok b ->
+  (committed (r_log r) <= applied (r_log r) /\ b = false) \/
+  (applied (r_log r) < committed (r_log r) /\
+   scan_conf (r_log r) (S (N.to_nat (hi - lo))) lo hi (r_max_committed_size_per_ready r) = Ok b).
+Proof.
+  unfold has_unapplied_conf_changes. intros H.
+  destruct (committed (r_log r) <=? applied (r_log r)) eqn:E.
+  - inversion H; subst. left. split; [lia|reflexivity].
+  - right. split; [lia|exact H].
+Qed.
+
+(* ------------------------------------------------------------------ *)
+(* 4. a (pre-)candidate that learns of a committed membership change steps down *)
+
+Theorem maybe_commit_by_vote_spec r m r' :
+  maybe_commit_by_vote r m = Ok r' ->
+  r' = r \/
+  exists l' b,
+    m_commit m <> 0 /\ m_commit_term m <> 0 /\ committed (r_log r) < m_commit m /\
+    is_leader r = false /\
+    RaftLog.maybe_commit (r_log r) (m_commit m) (m_commit_term m) = Ok (l', b) /\
+    (r' = r <| r_log := l' |> \/
+     (b = true /\ (r_state r = Candidate \/ r_state r = PreCandidate) /\
+      has_unapplied_conf_changes (r <| r_log := l' |>) (committed (r_log r) + 1) (committed l' + 1)
+        = Ok true /\
+      become_follower (r <| r_log := l' |>) (r_term r) INVALID_ID = Ok r')).
+Proof.
+  unfold maybe_commit_by_vote. intros H.
+  destruct ((m_commit m =? 0) || (m_commit_term m =? 0)) eqn:E0; [inversion H; auto|].
+  destruct ((m_commit m <=? committed (r_log r)) || is_leader r) eqn:E1; [inversion H; auto|].
+  apply orb_false_iff in E0. destruct E0 as [E0a E0b].
+  apply orb_false_iff in E1. destruct E1 as [E1a E1b].
+  inv_bind H. destruct x as [l' b]. right. exists l', b.
+  repeat (split; [first [lia|assumption]|]).
+  destruct b; cbn [negb] in H; [|inversion H; auto].
+  change (r_state (r <| r_log := l' |>)) with (r_state r) in H.
+  change (r_term (r <| r_log := l' |>)) with (r_term r) in H.
+  change (r_log (r <| r_log := l' |>)) with l' in H.
+  destruct (negb (role_eqb (r_state r) Candidate) && negb (role_eqb (r_state r) PreCandidate)) eqn:Ec;
+    [inversion H; auto|].
+  inv_bind H. destruct x; [|inversion H; auto].
+  right. split; [reflexivity|]. split; [|split; assumption].
+  destruct (r_state r); cbn in Ec; try discriminate; auto.
+Qed.
+
+Theorem candidate_stepdown r m l' r' :
+  m_commit m <> 0 -> m_commit_term m <> 0 -> committed (r_log r) < m_commit m ->
+  (r_state r = Candidate \/ r_state r = PreCandidate) ->
+  RaftLog.maybe_commit (r_log r) (m_commit m) (m_commit_term m) = Ok (l', true) ->
+  has_unapplied_conf_changes (r <| r_log := l' |>) (committed (r_log r) + 1) (committed l' + 1)
+    = Ok true ->
+  maybe_commit_by_vote r m = Ok r' ->
+  r_state r' = Follower /\ r_term r' = r_term r /\ r_vote r' = r_vote r /\
+  r_leader_id r' = INVALID_ID /\ r_log r' = set_limit l' 0.
+Proof.
+  intros Hc Hct Hlt Hs Hmc Hun H.
+  pose proof (maybe_commit_by_vote_same_tv _ _ _ H) as [Ht Hv].
+  unfold maybe_commit_by_vote in H.
+  assert (E0 : (m_commit m =? 0) || (m_commit_term m =? 0) = false).
+  { apply orb_false_iff. split; apply N.eqb_neq; assumption. }
+  rewrite E0 in H.
+  assert (E1 : (m_commit m <=? committed (r_log r)) || is_leader r = false).
+  { apply orb_false_iff. split; [apply N.leb_gt; exact Hlt|].
+    unfold is_leader. destruct Hs as [-> | ->]; reflexivity. }
+  rewrite E1, Hmc in H. cbn [bind negb] in H.
+  change (r_state (r <| r_log := l' |>)) with (r_state r) in H.
+  change (r_term (r <| r_log := l' |>)) with (r_term r) in H.
+  change (r_log (r <| r_log := l' |>)) with l' in H.
+  assert (Ec : negb (role_eqb (r_state r) Candidate) && negb (role_eqb (r_state r) PreCandidate) = false)
+    by (destruct Hs as [-> | ->]; reflexivity).
+  rewrite Ec, Hun in H. cbn [bind] in H.
+  apply become_follower_fields in H. destruct H as (A & _ & B & _ & _ & _ & _ & _ & L).
+  repeat split; assumption.
+Qed.
